@@ -977,4 +977,401 @@ theorem selLoop_pc {kinds pre sc} (hp : ClassP pre sc) (f : Nat) : ∀ {s : St},
       · exact ih p1 (selDispatch_c sc hcd hid) (selDispatch_self sc hfd hid hq.backend)
           (selDispatch_inv sc hid hq.backend).1
 
+/-! ### poll -/
+
+/-- the revents of the table are the masks of the descriptors as they were when `poll` returned
+(`D0`), and since then the dispatch has only consumed bytes -/
+structure RevOK (D0 : Nat → Desc) (s : St) : Prop where
+  rev : ∀ e ∈ s.ptab, e.rev = (D0 e.fd).mask
+  drained : ∀ d, (s.ds d).avail ≤ (D0 d).avail ∧ SameBut (s.ds d) (D0 d)
+
+theorem mask_hup_eof {d : Desc} (h : Plain d) (hh : d.mask.hup = true ∨ d.mask.err = true) : d.eof = true := by
+  obtain ⟨_, h2, h3, _⟩ := h
+  unfold Desc.mask at hh
+  cases hk : d.kind <;> simp [hk, h2] at hh
+  · exact hh
+  · exact h3 hh
+  · exact h3 hh
+
+theorem mask_noin_avail {d : Desc} (hi : d.mask.inn = false) : d.avail = 0 := by
+  unfold Desc.mask at hi
+  cases hk : d.kind <;> simp [hk] at hi
+  · exact hi
+  · exact hi.1
+  · exact hi.1
+
+theorem SameBut.plain {a b : Desc} (h : SameBut a b) (hp : Plain a) : Plain b := by
+  obtain ⟨_, _, a3, a4, a5, a6, a7⟩ := h
+  obtain ⟨p1, p2, p3, p4⟩ := hp
+  exact ⟨by rw [← a7]; exact p1, by rw [← a6]; exact p2, by rw [← a5, ← a4]; exact p3,
+    by rw [← a4, ← a3]; exact p4⟩
+
+theorem pollVisit_pc {kinds pre sc} (hp : ClassP pre sc) {D0 : Nat → Desc} {s : St}
+    (h : PC none kinds pre sc s) (hi : Inv none s) (hv : PInv s) (hr : RevOK D0 s) {i : Nat} {e : PEnt}
+    (he : s.ptab[i]? = some e) :
+    PC none kinds pre sc (pollVisit sc i e s) ∧ RevOK D0 (pollVisit sc i e s) := by
+  have hmem := getElem?_mem' he
+  have hc : e.node ∈ s.ctxList := hi.pMem e hmem
+  have hfd : e.fd = e.node := hv.fdNode e hmem
+  have hrev : e.rev = (D0 e.node).mask := by rw [← hfd]; exact hr.rev e hmem
+  have hreg : Ev.addOk e.node ∈ s.trace := (hi.sound _ hc).1
+  unfold pollVisit
+  -- after the read callback and the HUP/ERR flagging
+  have h2 : ∃ s2, s2 = pollFlag e (pollRead sc e s) ∧ PC (some e.node) kinds pre sc s2 ∧
+      (s2.flag e.node = true → (s2.ds e.node).eof = true ∧ (s2.ds e.node).avail = 0) ∧
+      RevOK D0 s2 ∧ s2.ptab = s.ptab ∧ s2.ctxList = s.ctxList ∧ Inv none s2 := by
+    refine ⟨_, rfl, ?_⟩
+    unfold pollRead pollFlag
+    by_cases hin : e.rev.inn = true
+    · simp only [hin, ↓reduceIte]
+      have i2 := cbRead_inv sc hi hc
+      obtain ⟨p1, p2, p3, p4⟩ := cbRead_pc hp h hc hreg
+      have hpt : (cbRead sc e.node s).ptab = s.ptab := by rw [cbRead_P hp]; rfl
+      have hro : RevOK D0 (cbRead sc e.node s) :=
+        ⟨by rw [hpt]; exact hr.rev, fun d => ⟨Nat.le_trans (p3 d).1 (hr.drained d).1,
+          (p3 d).2.trans (hr.drained d).2⟩⟩
+      have havail : ((cbRead sc e.node s).ds e.node).avail = 0 := by
+        rw [cbRead_P hp]; simp [emit, upd]
+      generalize cbRead sc e.node s = s1 at p1 p2 p4 hpt hro havail i2
+      split
+      · rename_i hh
+        have heof0 : (D0 e.node).eof = true := by
+          apply mask_hup_eof ((hr.drained e.node).2.plain (h.plain e.node))
+          rw [← hrev]; simpa using hh
+        have heof : (s1.ds e.node).eof = true := by rw [(hro.drained e.node).2.2.2.2.1]; exact heof0
+        refine ⟨?_, fun _ => ⟨heof, havail⟩, ⟨hro.rev, hro.drained⟩, hpt, p4,
+          i2.congr rfl rfl rfl rfl rfl rfl rfl⟩
+        refine ⟨p1.sync, p1.cons, p1.plain, ?_, p1.closedDone, p1.exitPhase, p1.quiet, p1.adds, p1.unreg, p1.ndsOk⟩
+        intro c' hc' hne
+        have hne' : c' ≠ e.node := fun hx => hne (by rw [hx])
+        show upd s1.flag e.node true c' = false
+        simp [upd, hne']; exact p1.flags c' hc' hne
+      · exact ⟨p1, p2, hro, hpt, p4, i2⟩
+    · have hin' : e.rev.inn = false := by cases hx : e.rev.inn <;> simp_all
+      simp only [hin', Bool.false_eq_true, ↓reduceIte]
+      split
+      · rename_i hh
+        have heof0 : (D0 e.node).eof = true := by
+          apply mask_hup_eof ((hr.drained e.node).2.plain (h.plain e.node))
+          rw [← hrev]; simpa using hh
+        have hav0 : (D0 e.node).avail = 0 := mask_noin_avail (by rw [← hrev]; exact hin')
+        refine ⟨pc_flag e.node h, fun _ => ⟨?_, ?_⟩, ⟨hr.rev, hr.drained⟩, rfl, rfl,
+          hi.congr rfl rfl rfl rfl rfl rfl rfl⟩
+        · show (s.ds e.node).eof = true
+          rw [(hr.drained e.node).2.2.2.2.1]; exact heof0
+        · show (s.ds e.node).avail = 0
+          have := (hr.drained e.node).1; omega
+      · refine ⟨h.weaken e.node, fun hf => ?_, hr, rfl, rfl, hi⟩
+        rw [h.flags e.node hc (by simp)] at hf; cases hf
+  obtain ⟨s2, hs2, p2, pdone, r2, hpt, hcl, i2⟩ := h2
+  rw [← hs2]
+  unfold pollFinish
+  split
+  · rename_i hf
+    obtain ⟨a1, a2, a3, a4, a5, a6, a7, a8⟩ := cbClose_P hp e.node s2
+    have hpt3 : (cbClose sc e.node s2).ptab = s2.ptab := by
+      rcases cbClose_eq sc e.node s2 with hx | hx <;> rw [hx] <;>
+        simp only [hp.noClose, runActs, List.foldl_nil] <;> rfl
+    have he3 : (cbClose sc e.node s2).ptab[i]? = some e := by rw [hpt3, hpt]; exact he
+    have hnd3 : ((cbClose sc e.node s2).ptab.map (·.node)).Nodup := by rw [hpt3, hpt]; exact hi.pNodup
+    generalize cbClose sc e.node s2 = s3 at a1 a2 a3 a4 a5 a6 a7 a8 hpt3 he3 hnd3
+    obtain ⟨_, f2, _⟩ := swapRemove_facts (·.node) s3.ptab i e he3 hnd3
+    constructor
+    · refine pc_close p2 (pdone hf) a1 a2 a3 ?_ a5 a6 a7 a8
+      intro c' hc'
+      have hc'' : c' ∈ s3.ctxList.erase e.node := hc'
+      rw [a4] at hc''
+      exact ⟨List.mem_of_mem_erase hc'', fun hx => by
+        rw [hx] at hc''; exact i2.nodupL.not_mem_erase hc''⟩
+    · refine ⟨?_, ?_⟩
+      · intro x hx
+        have hx' : x ∈ swapRemove s3.ptab i := hx
+        have := (f2 x hx').1
+        rw [hpt3] at this
+        exact r2.rev x this
+      · intro d
+        show ((pollRemove i e s3).ds d).avail ≤ _ ∧ _
+        have : (pollRemove i e s3).ds = s2.ds := a1
+        rw [this]; exact r2.drained d
+  · rename_i hf
+    have hf' : s2.flag e.node = false := by cases hx : s2.flag e.node <;> simp_all
+    exact ⟨pc_keep p2 hf', r2⟩
+
+theorem pollScan_pc {kinds pre sc} (hp : ClassP pre sc) {D0 : Nat → Desc} (i : Nat) : ∀ (n : Int) {s : St},
+    PC none kinds pre sc s → Inv none s → PInv s → RevOK D0 s → PC none kinds pre sc (pollScan sc i n s) := by
+  induction i with
+  | zero =>
+    intro n s h _ _ _
+    unfold pollScan
+    split
+    · exact handleWake_pc hp h
+    · exact h
+  | succ i ih =>
+    intro n s h hi hv hr
+    unfold pollScan
+    split
+    · exact h.congr rfl rfl rfl rfl rfl rfl rfl rfl
+    · rename_i e he
+      simp only []
+      obtain ⟨p1, r1⟩ := pollVisit_pc hp h hi hv hr he
+      split
+      · exact p1
+      · exact ih _ p1 (pollVisit_inv sc hi he) (pollVisit_pinv sc hv hi he) r1
+
+theorem pollLoop_pc {kinds pre sc} (hp : ClassP pre sc) (f : Nat) : ∀ {s : St},
+    PC none kinds pre sc s → PInv s → Inv none s →
+    PC none kinds pre sc (pollLoop sc f s) ∧
+      ((pollLoop sc f s).toExit = 1 ∨ Ev.fuel ∈ (pollLoop sc f s).trace) := by
+  induction f with
+  | zero =>
+    intro s h _ _
+    unfold pollLoop
+    exact ⟨PC.emit_other h (by simp) (by simp) (by simp), Or.inr (by simp [emit])⟩
+  | succ f ih =>
+    intro s h hv hi
+    unfold pollLoop
+    have hpq : PC none kinds pre sc (pollQuery s) := by
+      unfold pollQuery; exact h.congr rfl rfl rfl rfl rfl rfl rfl rfl
+    simp only []
+    split
+    · rename_i hz
+      have hr := poll_block_none_readable hv hz
+      have hr' : ∀ c ∈ s.ctxList, (s.ds c).readable = false := by
+        rw [List.any_eq_false] at hr
+        intro c hcc
+        cases hx : (s.ds c).readable
+        · rfl
+        · exact absurd hx (hr c hcc)
+      exact ih (idle_pc hp hpq (fun _ => hr')) (idle_pinv sc (pollQuery_pinv hv) hr)
+        (idle_inv sc (pollQuery_inv hi))
+    · have hid : Inv none (emit .disp (pollQuery s)) :=
+        inv_emit_of (pollQuery_inv hi) (by simp) (by simp) (by simp) trivial
+      have hvd : PInv (emit .disp (pollQuery s)) := emit_pinv (by simp) (pollQuery_pinv hv)
+      have hpd : PC none kinds pre sc (emit .disp (pollQuery s)) :=
+        PC.emit_other hpq (by simp) (by simp) (by simp)
+      have hro : RevOK s.ds (emit .disp (pollQuery s)) := by
+        refine ⟨?_, fun d => ⟨Nat.le_refl _, rfl, rfl, rfl, rfl, rfl, rfl, rfl⟩⟩
+        intro e he
+        have he' : e ∈ s.ptab.map (fun e => { e with rev := (s.ds e.fd).mask }) := he
+        simp at he'
+        obtain ⟨e0, _, hee⟩ := he'
+        subst hee; rfl
+      have p1 := pollScan_pc hp (pollQuery s).ptab.length (pollCount (pollQuery s)) hpd hid hvd hro
+      split
+      · rename_i hx
+        exact ⟨p1, Or.inl hx⟩
+      · exact ih p1 (pollScan_pinv sc _ _ hvd hid) (pollScan_inv sc _ _ hid)
+
+/-! ### epoll -/
+
+/-- the masks of the batch are those of the descriptors when `epoll_wait` returned (`D0`) -/
+def BatchOK (D0 : Nat → Desc) (b : List (Src × Mask)) : Prop :=
+  ∀ c mk, (Src.ctx c, mk) ∈ b → mk = (D0 c).mask
+
+theorem epVisit_pc {kinds pre sc} (hp : ClassP pre sc) {D0 : Nat → Desc} {s : St} {c : Nat} {mk : Mask}
+    (h : PC none kinds pre sc s) (hi : Inv none s) (hc : c ∈ s.ctxList) (hmk : mk = (D0 c).mask)
+    (hmany : mk.any = true)
+    (hdr : ∀ d, (s.ds d).avail ≤ (D0 d).avail ∧ SameBut (s.ds d) (D0 d)) :
+    PC none kinds pre sc (epVisit sc c mk s) ∧
+      ∀ d, ((epVisit sc c mk s).ds d).avail ≤ (D0 d).avail ∧ SameBut ((epVisit sc c mk s).ds d) (D0 d) := by
+  have hreg : Ev.addOk c ∈ s.trace := (hi.sound _ hc).1
+  unfold epVisit
+  have h2 : ∃ s2, s2 = epRead sc c mk s ∧ PC (some c) kinds pre sc s2 ∧
+      (s2.flag c = true → (s2.ds c).eof = true ∧ (s2.ds c).avail = 0) ∧
+      (∀ d, (s2.ds d).avail ≤ (D0 d).avail ∧ SameBut (s2.ds d) (D0 d)) ∧ s2.ctxList = s.ctxList ∧
+      Inv none s2 := by
+    refine ⟨_, rfl, ?_⟩
+    unfold epRead
+    by_cases hin : mk.inn = true
+    · simp only [hin, ↓reduceIte]
+      obtain ⟨p1, p2, p3, p4⟩ := cbRead_pc hp h hc hreg
+      exact ⟨p1, p2, fun d => ⟨Nat.le_trans (p3 d).1 (hdr d).1, (p3 d).2.trans (hdr d).2⟩, p4,
+        cbRead_inv sc hi hc⟩
+    · have hin' : mk.inn = false := by cases hx : mk.inn <;> simp_all
+      simp only [hin', Bool.false_eq_true, ↓reduceIte]
+      have hhe : (mk.err || mk.hup) = true := by
+        unfold Mask.any at hmany
+        simp [hin'] at hmany
+        rcases hmany with hh | hh <;> simp [hh]
+      simp only [hhe, ↓reduceIte]
+      have heof0 : (D0 c).eof = true := by
+        apply mask_hup_eof ((hdr c).2.plain (h.plain c))
+        rw [← hmk]
+        simp at hhe
+        rcases hhe with hh | hh
+        · exact Or.inr hh
+        · exact Or.inl hh
+      have hav0 : (D0 c).avail = 0 := mask_noin_avail (by rw [← hmk]; exact hin')
+      refine ⟨pc_flag c h, fun _ => ⟨?_, ?_⟩, hdr, by first | rfl | trivial, hi.congr rfl rfl rfl rfl rfl rfl rfl⟩
+      · show (s.ds c).eof = true
+        rw [(hdr c).2.2.2.2.1]; exact heof0
+      · show (s.ds c).avail = 0
+        have := (hdr c).1; omega
+  obtain ⟨s2, hs2, p2, pdone, d2, hcl, i2⟩ := h2
+  rw [← hs2]
+  unfold epFinish
+  split
+  · rename_i hf
+    have hdel : PC (some c) kinds pre sc (epDel c s2) := p2.congr rfl rfl rfl rfl rfl rfl rfl rfl
+    have hdone' : ((epDel c s2).ds c).eof = true ∧ ((epDel c s2).ds c).avail = 0 := pdone hf
+    obtain ⟨a1, a2, a3, a4, a5, a6, a7, a8⟩ := cbClose_P hp c (epDel c s2)
+    generalize cbClose sc c (epDel c s2) = s3 at a1 a2 a3 a4 a5 a6 a7 a8
+    simp only []
+    constructor
+    · refine pc_close hdel hdone' a1 a2 a3 ?_ a5 a6 a7 a8
+      intro c' hc'
+      have hc'' : c' ∈ s3.ctxList.erase c := hc'
+      rw [a4] at hc''
+      have hc3 : c' ∈ s2.ctxList.erase c := hc''
+      exact ⟨List.mem_of_mem_erase hc3, fun hx => by
+        rw [hx] at hc3; exact i2.nodupL.not_mem_erase hc3⟩
+    · intro d
+      show (s3.ds d).avail ≤ _ ∧ _
+      rw [a1]; exact d2 d
+  · rename_i hf
+    have hf' : s2.flag c = false := by cases hx : s2.flag c <;> simp_all
+    exact ⟨pc_keep p2 hf', d2⟩
+
+theorem epBatch_pc {kinds pre sc} (hp : ClassP pre sc) {D0 : Nat → Desc} (b : List (Src × Mask)) :
+    ∀ {s : St}, PC none kinds pre sc s → Inv none s → s.backend = .epoll → (b.map (·.1)).Nodup →
+    (∀ x ∈ b, x.2.any = true) → BatchOK D0 b → (∀ c mk, (Src.ctx c, mk) ∈ b → c ∈ s.ctxList) →
+    (∀ d, (s.ds d).avail ≤ (D0 d).avail ∧ SameBut (s.ds d) (D0 d)) →
+    PC none kinds pre sc (epBatch sc b s) := by
+  induction b with
+  | nil => intro s h _ _ _ _ _ _ _; exact h
+  | cons x r ih =>
+    intro s h hi hb hnd hany hbo hmem hdr
+    obtain ⟨src, mk⟩ := x
+    have hnd' : (r.map (·.1)).Nodup := (List.nodup_cons.mp hnd).2
+    have hany' : ∀ x ∈ r, x.2.any = true := fun x hx => hany x (List.mem_cons_of_mem _ hx)
+    have hbo' : BatchOK D0 r := fun c mk' hm => hbo c mk' (List.mem_cons_of_mem _ hm)
+    cases src with
+    | sig =>
+      unfold epBatch
+      have h1 : ∃ s1, s1 = (if mk.inn then handleWake sc s else s) ∧ PC none kinds pre sc s1 ∧ Inv none s1 ∧
+          s1.backend = .epoll ∧ s1.ctxList = s.ctxList ∧ s1.ds = s.ds := by
+        refine ⟨_, rfl, ?_⟩
+        split
+        · refine ⟨handleWake_pc hp h, handleWake_inv sc hi, by rw [(handleWake_ext sc s).backend]; exact hb, ?_, ?_⟩
+          · rw [handleWake_P hp]; split <;> rfl
+          · rw [handleWake_P hp]; split <;> rfl
+        · exact ⟨h, hi, hb, rfl, rfl⟩
+      obtain ⟨s1, hs1, p1, i1, b1, c1, d1⟩ := h1
+      rw [← hs1]
+      refine ih p1 i1 b1 hnd' hany' hbo' ?_ (by rw [d1]; exact hdr)
+      intro c mk' hm
+      rw [c1]; exact hmem c mk' (List.mem_cons_of_mem _ hm)
+    | ctx c =>
+      unfold epBatch
+      have hc : c ∈ s.ctxList := hmem c mk (by simp)
+      obtain ⟨v1, v2, v3⟩ := epVisit_inv sc hi hb hc mk
+      obtain ⟨p1, d1⟩ := epVisit_pc hp h hi hc (hbo c mk (by simp)) (hany (Src.ctx c, mk) (by simp)) hdr
+      refine ih p1 v1 v2 hnd' hany' hbo' ?_ d1
+      intro c' mk' hm
+      have hne : c' ≠ c := by
+        intro hh; subst hh
+        have : Src.ctx c' ∈ r.map (·.1) := List.mem_map_of_mem (f := (·.1)) hm
+        exact (List.nodup_cons.mp hnd).1 this
+      exact v3 c' hne (hmem c' mk' (List.mem_cons_of_mem _ hm))
+
+theorem epCollect_mask (s : St) (l : List Src) : ∀ (m : Nat) (c : Nat) (mk : Mask),
+    (Src.ctx c, mk) ∈ (epCollect s l m).1 → mk = (s.ds c).mask := by
+  induction l with
+  | nil => intro m c mk hx; simp [epCollect] at hx
+  | cons a rest ih =>
+    intro m
+    cases m with
+    | zero => intro c mk hx; simp [epCollect] at hx
+    | succ m =>
+      unfold epCollect
+      simp only []
+      split
+      · intro c mk hx
+        simp at hx
+        rcases hx with ⟨h1, h2⟩ | hx
+        · subst h1; rw [h2]; rfl
+        · exact ih m c mk hx
+      · exact ih (m + 1)
+
+theorem epLoop_pc {kinds pre sc} (hp : ClassP pre sc) (f : Nat) : ∀ {s : St},
+    PC none kinds pre sc s → EInv none [] s → Inv none s →
+    PC none kinds pre sc (epLoop sc f s) ∧
+      ((epLoop sc f s).toExit = 1 ∨ Ev.fuel ∈ (epLoop sc f s).trace) := by
+  induction f with
+  | zero =>
+    intro s h _ _
+    unfold epLoop
+    exact ⟨PC.emit_other h (by simp) (by simp) (by simp), Or.inr (by simp [emit])⟩
+  | succ f ih =>
+    intro s h he hi
+    unfold epLoop
+    obtain ⟨c1, c2⟩ := epCollect_sub s s.armed (s.hints + 1)
+    have hiq : Inv none { s with armed := (epCollect s s.armed (s.hints + 1)).2 } := by
+      constructor
+      · exact hi.nodupL
+      · exact hi.sound
+      · exact hi.complete
+      · exact hi.triedOk
+      · exact hi.wf
+      · exact hi.pNodup
+      · exact hi.pMem
+      · exact hi.eNodup
+      · exact hi.eMem
+      · exact hi.aNodup.sublist c2
+      · intro c hc; exact hi.aMem c (c2.subset hc)
+      · exact hi.pOnly
+      · exact hi.eOnly
+    have hq : EInv none (ctxIds (epCollect s s.armed (s.hints + 1)).1)
+        { s with armed := (epCollect s s.armed (s.hints + 1)).2 } := by
+      refine ⟨he.backend, he.reg, ?_, he.hupEof, he.noLost⟩
+      intro c hc hcur hm
+      rcases he.ready c hc hcur hm with h' | h'
+      · rcases epCollect_cover s s.armed (s.hints + 1) (.ctx c) h' hm with h2 | h2
+        · exact Or.inr (mem_ctxIds.mpr h2)
+        · exact Or.inl h2
+      · simp at h'
+    have hpq : PC none kinds pre sc { s with armed := (epCollect s s.armed (s.hints + 1)).2 } :=
+      h.congr rfl rfl rfl rfl rfl rfl rfl rfl
+    simp only []
+    split
+    · rename_i hempty
+      have hem : (epCollect s s.armed (s.hints + 1)).1 = [] := by simpa using hempty
+      have hnone := epCollect_empty s s.armed s.hints hem
+      have hr' : ∀ c ∈ s.ctxList, (s.ds c).readable = false := by
+        intro c hc
+        cases hrd : (s.ds c).readable
+        · rfl
+        · rcases he.ready c hc (by simp) hrd with h' | h'
+          · have := hnone _ h'
+            simp [srcMask] at this
+            rw [show (s.ds c).readable = (s.ds c).mask.any from rfl] at hrd
+            rw [this] at hrd; cases hrd
+          · simp at h'
+      have hr : (s.ctxList.any fun c => (s.ds c).readable) = false := by
+        rw [List.any_eq_false]
+        intro c hc hx
+        rw [hr' c hc] at hx; cases hx
+      rw [hem] at hq
+      exact ih (idle_pc hp hpq (fun _ => hr')) (idle_einv sc hq hr) (idle_inv sc hiq)
+    · have hnd : ((epCollect s s.armed (s.hints + 1)).1.map (·.1)).Nodup := hi.aNodup.sublist c1
+      have hmem : ∀ c mk, (Src.ctx c, mk) ∈ (epCollect s s.armed (s.hints + 1)).1 →
+          c ∈ (emit .disp { s with armed := (epCollect s s.armed (s.hints + 1)).2 }).ctxList := by
+        intro c mk hm
+        have : Src.ctx c ∈ (epCollect s s.armed (s.hints + 1)).1.map (·.1) :=
+          List.mem_map_of_mem (f := (·.1)) hm
+        exact hi.eMem c (hi.aMem c (c1.subset this))
+      have hid := inv_emit_of (e := .disp) hiq (by simp) (by simp) (by simp) trivial
+      have hpd : PC none kinds pre sc (emit .disp { s with armed := (epCollect s s.armed (s.hints + 1)).2 }) :=
+        PC.emit_other hpq (by simp) (by simp) (by simp)
+      have p1 := epBatch_pc hp (D0 := s.ds) _ hpd hid he.backend hnd (epCollect_any s s.armed (s.hints + 1))
+        (fun c mk hm => epCollect_mask s s.armed (s.hints + 1) c mk hm) hmem
+        (fun d => ⟨Nat.le_refl _, rfl, rfl, rfl, rfl, rfl, rfl, rfl⟩)
+      have e1 := epBatch_einv sc hp.drain _ (emit_einv (e := .disp) (by simp) hq) hid hnd
+        (epCollect_any s s.armed (s.hints + 1)) hmem
+      have i1 := epBatch_inv sc _ hid he.backend hnd hmem
+      split
+      · rename_i hx
+        exact ⟨p1, Or.inl hx⟩
+      · exact ih p1 e1 i1.1
+
 end MgProof.C13
